@@ -13,6 +13,83 @@ FACTORY = 'pymodbus.device.DeviceInformationFactory'
 MAX_OBJECT = 245        # the property quantifies over values of length 0..245 (one-byte length field, 253-byte PDU)
 
 
+
+def _table_entries(cx, fac, g):
+    """[(return node, [(key, value, filter-or-None)] | None)] -- what a getter of the identity factory puts in the table it returns.
+    Forms summarised alike: a dict display, a dict comprehension, dict(<generator of pairs>), dict([<pairs>]), and an empty dict
+    filled by `table[k] = v` stores (in a loop, possibly behind `if not v: continue` guards); locals are substituted."""
+    from ..common import annotate, ret_expr
+    out, seen = [], set()
+    for p in cx.enum(g, fac, max_depth=0):
+        if p.exit and p.exit[0] == 'exc':
+            continue
+        annotate(p, heap=False)
+        r = ret_expr(p)
+        rn = next((e.node for e in reversed(p.ev) if e.kind == 'return' and e.frame.fid == 0), None)
+        if r is None or rn is None:
+            continue
+        raw = rn.value
+        prs = None
+        if isinstance(r, ast.Dict):
+            prs = [(k, v, None) for k, v in zip(r.keys, r.values)]
+        elif isinstance(r, ast.DictComp) and len(r.generators) == 1:
+            prs = [(r.key, r.value, list(r.generators[0].ifs))]
+        elif isinstance(r, ast.Call) and callee_name(r) == 'dict' and len(r.args) == 1:
+            a = r.args[0]
+            if isinstance(a, (ast.GeneratorExp, ast.ListComp)) and isinstance(a.elt, (ast.Tuple, ast.List)) and len(a.elt.elts) == 2 and len(a.generators) == 1:
+                prs = [(a.elt.elts[0], a.elt.elts[1], list(a.generators[0].ifs))]
+            elif isinstance(a, (ast.List, ast.Tuple)) and all(isinstance(x, (ast.Tuple, ast.List)) and len(x.elts) == 2 for x in a.elts):
+                prs = [(x.elts[0], x.elts[1], None) for x in a.elts]
+        if prs is None and isinstance(raw, ast.Name):
+            # a local table filled by stores: the stores on this path, each with the conditions that guard it
+            prs = []
+            conds = []
+            for e in p.ev:
+                if e.kind == 'cond':
+                    conds.append((e._sub, e.a))
+                elif e.kind == 'assign' and isinstance(e.a, ast.Subscript) and isinstance(e.a.value, ast.Name) and e.a.value.id == raw.id:
+                    key = getattr(e, '_subt', None)
+                    key = key.slice if isinstance(key, ast.Subscript) else e.a.slice
+                    prs.append((key, e._sub if getattr(e, '_sub', None) is not None else e.node.value, list(conds)))
+                elif e.kind == 'loop' and e.a in ('enter',):
+                    conds = []
+            if not prs:
+                continue        # the zero-iteration path: nothing stored
+        sig = (id(rn), U(r), tuple((U(k), U(v)) for k, v, _ in prs) if prs else None)
+        if sig in seen:
+            continue
+        seen.add(sig)
+        out.append((rn, prs))
+    return out
+
+
+def _gets_filters(cx, fac, g):
+    """does the multi-object getter drop unpopulated (falsy) objects?  comprehension `if identity[oid]`, or a store guarded by the
+    truth of identity[oid]"""
+    idp = g.params[1]
+    ents = _table_entries(cx, fac, g)
+    if not ents:
+        return False
+    for rn, prs in ents:
+        if prs is None:
+            return False
+        for k, v, flt in prs:
+            want = '%s[%s]' % (idp, U(k))
+            if flt is None:
+                return False
+            ok = False
+            for f in flt:
+                if isinstance(f, tuple):            # (condition, outcome) guarding a store
+                    c, pol = f
+                    t = U(c)
+                    if (t == want and pol is True) or (t == 'not ' + want and pol is False):
+                        ok = True
+                elif U(f) == want:
+                    ok = True
+            if not ok:
+                return False
+    return True
+
 def run(ck, tier):
     cx = Ctx()
     rsp = cx.idx.cls(RSP)
@@ -234,7 +311,7 @@ def run(ck, tier):
                 ck.ob('R4', fac.qn, 'individual access returns exactly the requested object', ok, detail='individual-access', loc=fac.loc)
         g = cx.method(fac, '__gets')
         txt = U(g.node)
-        ck.ob('R4', g.qn, 'only populated (non-empty) objects are returned', 'if identity[oid]' in txt.replace(g.params[1], 'identity'), detail='gets-filter', loc=cx.floc(g))
+        ck.ob('R4', g.qn, 'only populated (non-empty) objects are returned', _gets_filters(cx, fac, g), detail='gets-filter', loc=cx.floc(g))
     # ---------------- R5: exact values
     ck.rule('R5', 'exact values: the factory hands out identity[id] itself for every selected id, and get() returns the selected table unchanged (no conversion between the store and the response)')
     n5 = 0
@@ -255,14 +332,13 @@ def run(ck, tier):
             continue
         ck.saw('functions', g.qn)
         idp = g.params[1]
-        for r in [x for x in ast.walk(g.node) if isinstance(x, ast.Return) and x.value is not None]:
+        for r_node, prs in _table_entries(cx, fac, g):
             n5 += 1
-            prs = pairs_of(r.value)
             ok = prs is not None and all(isinstance(v, ast.Subscript) and isinstance(v.value, ast.Name) and v.value.id == idp and U(v.slice) == U(k)
-                                         for k, v in prs)
-            ck.ob('R5', g.qn, 'each returned value is %s[id] for its own id' % idp, ok, detail='value-not-the-stored-object', loc=cx.floc(g, r),
+                                         for k, v, _f in prs)
+            ck.ob('R5', g.qn, 'each returned value is %s[id] for its own id' % idp, ok, detail='value-not-the-stored-object', loc=cx.floc(g, r_node),
                   message='DeviceInformationFactory.%s returns `%s`: the value served for an object id is not the configured object itself'
-                          % (gname.lstrip('_'), U(r.value)[:80]))
+                          % (gname.lstrip('_'), U(r_node.value)[:80] if getattr(r_node, 'value', None) is not None else '?'))
     gt = cx.method(fac, 'get')
     ck.saw('functions', gt.qn)
     for p in cx.enum(gt, fac, max_depth=0):
